@@ -737,6 +737,40 @@ pub fn run(ctx: &Ctx) -> (Stats, Report) {
                 }
             }
         }
+        // alternative spellings of one field of a canonical text - every month name (full and
+        // abbreviated, three letter cases) where the month number stands, unpadded and signed
+        // numbers - and every prefix of the resulting text (a payload that stops after / inside
+        // any field)
+        for kind in [Kind::Date, Kind::Ts, Kind::Ora, Kind::YM, Kind::DT, Kind::Time] {
+            let bases: Vec<&str> = match kind {
+                Kind::Date => vec!["2020-{}-15"],
+                Kind::Ts => vec!["2020-{}-15 10:20:30.123456"],
+                Kind::Ora => vec!["2020-{}-15 10:20:30"],
+                Kind::YM => vec!["+0005-{}", "-0005-{}"],
+                Kind::DT => vec!["+{} 10:20:30.123456"],
+                _ => vec!["{}:20:30.123456"],
+            };
+            let mut fields: Vec<String> = vec!["9".into(), "+9".into(), "-9".into(), "09".into(), "009".into(), " 9".into(), "".into()];
+            if !matches!(kind, Kind::DT | Kind::Time) {
+                for name in MONTH_NAMES {
+                    for n in [&name[..3], name] {
+                        fields.push(n.to_string());
+                        fields.push(n.to_uppercase());
+                        fields.push(n.to_lowercase());
+                    }
+                }
+            }
+            for base in bases {
+                for f in &fields {
+                    let text = base.replace("{}", f);
+                    for cut in 0..=text.len() {
+                        if text.is_char_boundary(cut) {
+                            payloads.push((kind, format!("\"{}\"", &text[..cut])));
+                        }
+                    }
+                }
+            }
+        }
         for (kind, payload) in payloads {
             st.evaluations += 1;
             st.nontrivial_enum += 1;
@@ -803,7 +837,7 @@ pub fn run(ctx: &Ctx) -> (Stats, Report) {
     st.section("concurrent_histories", &mut mark);
 
     let rep = Report {
-        rule: "Round trips through serde_json and bincode: all dates, every second of the day x {0,1,999999} us, boundary+seeded pools of all six types; the JSON text must equal the reference rendering of the fixed layout in quotes and the binary form the little-endian raw count; the binary round trip is repeated with variable-length integers (signedness and width of writer and reader must agree) and big-endian fixed width. Decoding: raw integers at every range limit +-0..3 and +-1e6, the i32/i64 extremes and seeded integers (uniform over the integer width, around the range, inside the range) as bincode payloads of every type (non-whole-second counts for the Oracle date included); JSON payloads made by 1..3 random edits of valid strings plus non-string JSON, every single-character substitution of canonical texts (every position x 16 characters incl. the ISO 'T' / 'Z' letters) x four paddings, text payloads written field by field at the limits (limit day count +-1 x every boundary / binary-boundary time of day x sign, limit years x months, first / last supported dates and their outside neighbours x times, the first / last valid text of every type with 19 extension suffixes such as shorter / longer fractions and zone designators), and long strings (valid or empty head + filler of every length 0..=600, 5000 in thorough, + a 2-, 3- or 4-byte character, so that a multi-byte character straddles every byte offset); integers handed to Deserialize in every width (i8..i128, u8..u128) by serde's de::value deserializers - range limits, small values and their images shifted by multiples of 2^8..2^65, extremes, seeded values: Err, or exactly the value whose raw count is that integer (never a truncated image). Concurrent histories: 16 threads, each walking its own three days (staying on a day 3 times out of 4) and round-tripping every value twice, so that any state the library shares between calls is hit from several threads (schedule-dependent: sound on any tree, sensitivity probabilistic). Oracle: round trip returns the same value; any other payload yields Err or a value satisfying the range predicate (whole seconds for the Oracle date). Non-trivial = every round-tripped value; out-of-range binary payloads; every perturbed JSON payload (distinct by content).".into(),
+        rule: "Round trips through serde_json and bincode: all dates, every second of the day x {0,1,999999} us, boundary+seeded pools of all six types; the JSON text must equal the reference rendering of the fixed layout in quotes and the binary form the little-endian raw count; the binary round trip is repeated with variable-length integers (signedness and width of writer and reader must agree) and big-endian fixed width. Decoding: raw integers at every range limit +-0..3 and +-1e6, the i32/i64 extremes and seeded integers (uniform over the integer width, around the range, inside the range) as bincode payloads of every type (non-whole-second counts for the Oracle date included); JSON payloads made by 1..3 random edits of valid strings plus non-string JSON, every single-character substitution of canonical texts (every position x 16 characters incl. the ISO 'T' / 'Z' letters) x four paddings, text payloads written field by field at the limits (limit day count +-1 x every boundary / binary-boundary time of day x sign, limit years x months, first / last supported dates and their outside neighbours x times, the first / last valid text of every type with 19 extension suffixes such as shorter / longer fractions and zone designators; canonical texts with one field respelled - every month name in three letter cases for the month number, unpadded / signed / over-padded / empty numbers - cut at every length), and long strings (valid or empty head + filler of every length 0..=600, 5000 in thorough, + a 2-, 3- or 4-byte character, so that a multi-byte character straddles every byte offset); integers handed to Deserialize in every width (i8..i128, u8..u128) by serde's de::value deserializers - range limits, small values and their images shifted by multiples of 2^8..2^65, extremes, seeded values: Err, or exactly the value whose raw count is that integer (never a truncated image). Concurrent histories: 16 threads, each walking its own three days (staying on a day 3 times out of 4) and round-tripping every value twice, so that any state the library shares between calls is hit from several threads (schedule-dependent: sound on any tree, sensitivity probabilistic). Oracle: round trip returns the same value; any other payload yields Err or a value satisfying the range predicate (whole seconds for the Oracle date). Non-trivial = every round-tripped value; out-of-range binary payloads; every perturbed JSON payload (distinct by content).".into(),
         assumptions: vec!["bincode 1.3 (little-endian fixed-width integers for the byte-exact comparison; variable-length and big-endian configurations for round trips only) and serde_json as the data formats".into()],
         exhaustive: false,
         extra: Default::default(),
